@@ -6,6 +6,7 @@ import (
 	"go/token"
 	"go/types"
 	"math"
+	"os"
 	"strings"
 	"time"
 
@@ -184,6 +185,9 @@ type Exec struct {
 	live      bool
 	sigs      []uint64
 	noReuse   bool
+	master    *initSnapshot
+	snapOff   bool
+	snapWhy   string
 	model     map[string]uint64
 	modelMemo map[*term.T]uint64
 	sibModels []map[string]uint64
@@ -651,8 +655,12 @@ func (ex *Exec) ensureInit(pkg *ssa.Package) {
 		saved := ex.cur
 		ex.cur = nil
 		ex.inInit++
+		before := ex.steps
 		ex.callFn(nil, f, nil)
 		ex.inInit--
+		if os.Getenv("GOSYM_INITTRACE") != "" {
+			fmt.Fprintf(os.Stderr, "init %s steps=%d\n", path, ex.steps-before)
+		}
 		ex.cur = saved
 	}
 }
